@@ -18,6 +18,11 @@
        their series (false for out-of-order samples: C01_refuted_ooo_append_under_tombstone);
      - a Delete range contains no out-of-order sample still in the head of a selected series
        (otherwise: C01_refuted_delete_then_ooo_compaction, C01_refuted_delete_skips_ooo_sample);
+     - the final state satisfies dead_covered: an in-order head sample below Head.MinTime that
+       still sits in a chunk straddling the last truncation point (the head querier returns it)
+       is also visible in a block (otherwise: C01_refuted_delete_skips_dead_head_sample).  That
+       well-formed histories preserve dead_covered is NOT proved (dead_free is a decidable
+       sufficient condition);
      - MISSING OP: Restart.  A restart is assumed to re-establish the invariant and to preserve
        the set of visible samples (it does not always: the C01_refuted_restart lemmas); the tie checks
        every generated restart against the implementation instead. *)
@@ -35,11 +40,14 @@ Theorem C01_spec_query_exact : forall sp mint maxt sel i pts,
   (forall x, In x (sp i) -> mint <= st x <= maxt -> exists vs, In (st x, vs) pts).
 Proof. exact spec_query_exact. Qed.
 
-(** the structured model's query (head querier with the in-order floor max(minTime,mint), head
-    tombstones over in-order and out-of-order data, only the blocks overlapping the range, block
-    tombstones) is the specification's query of its abstraction *)
+(** the structured model's query (head querier WITHOUT a floor at Head.MinTime — as in the code —
+    head tombstones over in-order and out-of-order data, only the blocks overlapping the range,
+    block tombstones) answers like the specification on the abstraction, provided every in-order
+    head sample below Head.MinTime that is still in a chunk is also visible in a block
+    (dead_covered; false after the Delete of C01_refuted_delete_skips_dead_head_sample) *)
 Theorem C01_query_is_spec_of_abs : forall c s mint maxt sel,
-  blocks_inv c (s_blocks s) -> query s mint maxt sel = spec_query (abs s) mint maxt sel.
+  blocks_inv c (s_blocks s) -> dead_covered s ->
+  answer_equiv (query s mint maxt sel) (spec_query (abs s) mint maxt sel).
 Proof. exact query_abs. Qed.
 
 (** per operation: the invariant is kept and abs commutes with the step — a commit adds exactly
@@ -58,7 +66,7 @@ Proof. exact abs_run. Qed.
 
 (** MAIN (partial: Restart is assumed, see the header) *)
 Theorem C01_refinement_partial : forall c ops,
-  wf_cfg c -> wf_ops c state0 ops ->
+  wf_cfg c -> wf_ops c state0 ops -> dead_covered (run c ops) ->
   forall mint maxt sel,
     answer_equiv (query (run c ops) mint maxt sel)
                  (spec_query (spec_run (map spec_of_op ops)) mint maxt sel).
@@ -97,6 +105,12 @@ Proof.
   end;
   try (vm_compute; repeat split; auto; try lia; try discriminate; intuition congruence).
   all: try (intros i y [<-|[<-|[]]] Hy; vm_compute in Hy; contradiction).
+Qed.
+
+Example C01_ex_dead_covered : dead_covered (run ex_cfg ex_ops).
+Proof.
+  apply (dead_free_covered ex_cfg); [|vm_compute; reflexivity].
+  destruct C01_ex_wf as [Hw Hwf]. exact (proj1 (abs_run ex_cfg ex_ops Hw Hwf)).
 Qed.
 
 Example C01_ex_answer :
@@ -166,4 +180,18 @@ Proof. refute cfg5 ops_f5 [0]. Qed.
 Example C01_f5_detail :
   shape (query (run cfg5 ops_f5) minInt64 maxInt64 [0]) = [(0, [100; 200; 1700])] /\
   shape (spec_query (spec_run (map spec_of_op ops_f5)) minInt64 maxInt64 [0]) = [(0, [1700])].
+Proof. vm_compute. auto. Qed.
+
+(* F6: a restart lowers Head.MinTime to the last in-order block's maxt; the next head compaction
+   copies -5 into block [-1000,0) and truncates the head to 0, but the chunk [-5,203] stays in the
+   head.  Delete(-2306,194) tombstones -5 in the block; the head tombstone is clamped to
+   [Head.MinTime, ...] = [0,194]; the head querier (no floor at Head.MinTime) still returns -5 *)
+Definition ops_f6 : list op :=
+  [cmc [0] [io 0 (-2600) 1; io 0 (-5) 2]; cm [io 0 203 8; io 0 1000 9]; Compact; Restart []; Compact;
+   Delete (-2306) 194 [0]].
+Theorem C01_refuted_delete_skips_dead_head_sample : ~ full_statement.
+Proof. refute cfg5 ops_f6 [0]. Qed.
+Example C01_f6_detail :
+  shape (query (run cfg5 ops_f6) minInt64 maxInt64 [0]) = [(0, [-2600; -5; 203; 1000])] /\
+  shape (spec_query (spec_run (map spec_of_op ops_f6)) minInt64 maxInt64 [0]) = [(0, [-2600; 203; 1000])].
 Proof. vm_compute. auto. Qed.
